@@ -281,6 +281,12 @@ func (ex *Exec) loadPtr(s *State, p PtrV) Value {
 			}
 		case *types.Slice:
 			return ex.loadSliceField(s, p)
+		case *types.Basic:
+			if u.Kind() == types.String {
+				sl := ex.loadSliceField(s, p).(SliceV)
+				sl.IsStr = true
+				return sl
+			}
 		}
 		return s.loadScalar(ex, p.Field, ex.subst(p.Elem), p.Obj)
 	case PSlot:
@@ -443,6 +449,14 @@ func (ex *Exec) storeVal(s *State, p PtrV, v Value, vt types.Type) {
 				}
 				s.storeScalar(ex, p.Field+".obj", types.Typ[types.UnsafePointer], p.Obj, RefV{T: bp.Obj})
 				s.storeScalar(ex, p.Field+".off", types.Typ[types.Int], p.Obj, ex.fromIdx(bp.Idx))
+				return
+			}
+		case *types.Basic:
+			if sl, ok := v.(SliceV); ok && u.Kind() == types.String {
+				s.storeScalar(ex, p.Field+".obj", types.Typ[types.UnsafePointer], p.Obj, RefV{T: sl.Obj})
+				s.storeScalar(ex, p.Field+".off", types.Typ[types.Int], p.Obj, ex.fromIdx(sl.Off))
+				s.storeScalar(ex, p.Field+".len", types.Typ[types.Int], p.Obj, ex.fromIdx(sl.Len))
+				s.storeScalar(ex, p.Field+".cap", types.Typ[types.Int], p.Obj, ex.fromIdx(sl.Len))
 				return
 			}
 		case *types.Slice:
